@@ -65,6 +65,9 @@ def exact_db(ms):
 
 def expected(ms, db, thr):
     """True / False / None (ambiguous: within 1e-9 of the boundary without being on it)."""
+    if isinstance(thr, float) and (thr != thr or thr in (float("inf"), float("-inf"))):
+        # ">= threshold" in IEEE arithmetic: never for NaN and +inf, always for -inf
+        return thr == float("-inf")
     t = Decimal(thr)
     diff = db - t
     if abs(diff) >= Decimal("1e-9"):
@@ -266,7 +269,20 @@ def large_windows(rep):
                         judge(window, sw, ch, None, thr, buf, "%s of %d samples" % (kind, n))
 
 
-def through_split(rep):
+def work_through_split(sw):
+    rep = common.Report("C07", "quick", "")
+    through_split(rep, (sw,))
+    cov = {k: rep.cov[k] for k in ("evaluations", "distinct_nontrivial", "ambiguous_skipped", "through_split") if k in rep.cov}
+    return {"cov": cov, "viol": rep.violations, "nviol": rep.nviol}
+
+
+def _dispatch(task):
+    if task[0] == "ts":
+        return work_through_split(task[1])
+    return work(task)
+
+
+def through_split(rep, widths=(1, 2, 4)):
     """The validator split() / AudioRegion.split() build from energy_threshold|eth and use_channel|uc is the same
     validator: a stream of one window is a region exactly when the window is active (thresholds include 0, 0.0,
     negative values and the documented default 50 written by omission)."""
@@ -274,7 +290,7 @@ def through_split(rep):
     from auditok import core
 
     rate = 10
-    for sw in (1, 2, 4):
+    for sw in widths:
         for ch in (1, 2):
             alpha = MID_Q[sw] + ([100, 400] if sw > 1 else [100])
             if ch == 2:
@@ -285,7 +301,7 @@ def through_split(rep):
                 for sel in ([None] if ch == 1 else [None, "mix", 0, -1]):
                     ms = mean_square(window, sel, ch)
                     db = exact_db(ms)
-                    for ti, thr in enumerate((None, 0, 0.0, -1, -200, 20, 50.0)):
+                    for ti, thr in enumerate((None, 0, 0.0, -1, -200, 20, 50.0, float("nan"), float("inf"), float("-inf"), -250)):
                         exp = expected(ms, db, 50 if thr is None else thr)
                         if exp is None:
                             rep.add("ambiguous_skipped")
@@ -297,12 +313,16 @@ def through_split(rep):
                             kw["eth" if short else "energy_threshold"] = thr
                         if sel is not None:
                             kw["uc" if short else "use_channel"] = sel
-                        for how in ("function", "method"):
+                        for how in ("function", "method", "validator"):
+                            if how == "validator" and thr is None:
+                                continue
                             rep.add("evaluations")
                             rep.add("through_split")
                             rep.add("distinct_nontrivial", int(exp))
                             try:
-                                if how == "function":
+                                if how == "validator":
+                                    regs = [data] if lib()["AEV"](thr, sw, ch, use_channel=sel).is_valid(data) else []
+                                elif how == "function":
                                     regs = list(core.split(data, **kw))
                                 else:
                                     k2 = {k: v for k, v in kw.items() if k not in ("sr", "sw", "ch")}
@@ -347,8 +367,8 @@ def run(prop, tier):
     rep.cov["bounds"] = {"widths": [1, 2, 4], "channels": [1, 2, 3], "window_samples": "1..3" if quick else "1..4",
                          "thresholds": (QUICK_THR if quick else FIXED_THR) + ["exact energy", "exact energy +-1e-6"]}
     large_windows(rep)
-    through_split(rep)
-    for part in common.pmap(work, tasks):
+    tasks = [("ts", sw_) for sw_ in (1, 2, 4)] + tasks
+    for part in common.pmap(_dispatch, tasks):
         rep.merge(part)
     rep.cov["states"] = rep.cov.get("windows", 0)
     rep.cov["transitions"] = rep.cov["evaluations"]
